@@ -251,6 +251,10 @@ def run(C, R):
                         if delivers and ff is not None and _has_flag_twin(paths, path, flag):
                             # the flag was looked at (eagerly), but the same delivery happens for either value
                             R.ok('C11.R4', '%s|delivery for either flag value|%s' % (m['path'], path_cond(E, path)))
+                        elif delivers and ff == 1 and flag == 'is_fulfilled':
+                            # oneshot: the flag means "decided" (a value was sent OR the channel was closed); a value is
+                            # only ever stored together with it (C12.R1 / R6), so delivering under it loses nothing
+                            R.ok('C11.R4', '%s|delivery under the decided flag|%s' % (m['path'], path_cond(E, path)))
                         elif delivers and ff is not None:
                             R.fail('C11.R4', [m['path'], 'delivery-depends-on-flag'],
                                    '%s delivers a value only after looking at %s: values accepted before close() '
